@@ -453,7 +453,7 @@ def refine_conds(cfg, defs, node, cs, fold, rounds=4, ident=None, _depth=0):
 
 
 class DispatchView(object):
-    def __init__(self, repo):
+    def __init__(self, repo, multi_exec=False):
         self.repo = repo
         self.app = repo.mod(APP)
         self.fi = self.app.func('Application.dispatch')
@@ -490,7 +490,19 @@ class DispatchView(object):
             return st, st.targets[0].id
         self.match_call = one_call('match_path', 'route.match_path call')
         self.match_st, self.pp_var = bound_name(self.match_call, 'route.match_path(...)')
-        self.exec_call = one_call('execute', 'route.execute call')
+        # every ``<receiver>.execute(...)`` of dispatch runs a route (the receiver need not be the loop variable: the null route
+        # may be run by name after the loop).  "The" call is the one on the loop variable inside the loop body; a caller that
+        # judges every call site by itself (multi_exec) finds the others in ``extra_exec``, everybody else is told that
+        # the shape is not the one it knows.
+        execs = [c for c in walk_body(f) if isinstance(c, ast.Call) and isinstance(c.func, ast.Attribute) and c.func.attr == 'execute']
+        on_var = [c for c in execs if norm(c.func) == '%s.execute' % rv]
+        if len(on_var) > 1:
+            in_body = set(id(n) for s in self.loop.body for n in ast.walk(s))
+            on_var = [c for c in on_var if id(c) in in_body]
+        if len(on_var) != 1 or (len(execs) != 1 and not multi_exec):
+            raise AnalysisError('Application.dispatch: expected exactly one route.execute call, found %d' % len(execs))
+        self.exec_call = on_var[0]
+        self.extra_exec = [c for c in execs if c is not self.exec_call]
         self.exec_st, self.ret_var = bound_name(self.exec_call, 'route.execute(...)')
         # the method test: usually one call; when there are several, the one whose outcome guards execute is "the" test,
         # the others are still recognised as method tests by the predicates below
